@@ -90,7 +90,14 @@ class NewtonRaphsonGeometry(StandardGeometry, ABC):
             if np.max(np.abs(dz)) < self.tol:
                 break
         position = np.column_stack((rays.x, rays.y, rays.z))
-        return np.linalg.norm(intersections - position, axis=1)
+        t = np.linalg.norm(intersections - position, axis=1)
+
+        # rays for which the iteration did not converge have no valid
+        # intersection point
+        residual = intersections[:, 2] - self.sag(intersections[:, 0],
+                                                  intersections[:, 1])
+        converged = np.abs(residual) < self.tol
+        return np.where(converged, t, np.nan)
 
     def _intersection_sphere(self, rays):
         """
